@@ -121,9 +121,15 @@ Definition safe_name (n : str) : bool :=
   | [] => false
   end.
 
+Definition is_nil_l' {A} (l : list A) : bool := match l with [] => true | _ => false end.
+
 (** a comment line as the caller may pass it: no line boundary but a final LF *)
 Definition valid_comment (c : str) : bool :=
   forallb (fun x => negb (py_islinebreak x)) (chomp c).
+
+(** a comment argument from which a comment line can be made: empty (an empty comment line)
+    or with something visible in it; a string of blanks is not a comment *)
+Definition comment_usable (c : str) : bool := is_nil_l' c || negb (forallb py_isspace c).
 
 (** * Observations of one step *)
 
@@ -131,7 +137,7 @@ Record sobs := mkO {
   o_failed : bool;                                   (* the call raised *)
   o_dump : str;                                      (* dump() afterwards *)
   o_reparse : option (list (list (str * str)));      (* fresh parse of the dump: names and values *)
-  o_lookups : list (list (str * result str))         (* per re-parsed paragraph: the key in other spellings *)
+  o_lookups : list (list (result str))               (* per re-parsed paragraph: the key read in other spellings *)
 }.
 
 Definition pairs_eqb : list (str * str) -> list (str * str) -> bool :=
@@ -205,7 +211,7 @@ Definition reparsed_value (ob : sobs) (j' p : nat) : option str :=
 (** every alternative spelling of the key reads [val] in re-parsed paragraph [j'] *)
 Definition lookups_read (ob : sobs) (j' : nat) (val : str) : bool :=
   match nth_error (o_lookups ob) j' with
-  | Some ls => forallb (fun kv => result_eqb str_eqb (snd kv) (Ok val)) ls
+  | Some ls => forallb (fun r => result_eqb str_eqb r (Ok val)) ls
   | None => false
   end.
 
@@ -214,7 +220,7 @@ Definition lookups_read (ob : sobs) (j' : nat) (val : str) : bool :=
 Definition lookups_absent (ob : sobs) (j' : nat) (para_gone : bool) : bool :=
   para_gone ||
   match nth_error (o_lookups ob) j' with
-  | Some ls => forallb (fun kv => match snd kv with Err _ => true | Ok _ => false end) ls
+  | Some ls => forallb (fun r => match r with Err _ => true | Ok _ => false end) ls
   | None => false
   end.
 
@@ -334,7 +340,11 @@ Definition accept_set (s : sdoc) (j : nat) (n : str) (v : str) (vvalid : bool) (
 Definition first_some {A B} (f : A -> option B) (l : list A) : option B :=
   fold_right (fun a r => match f a with Some b => Some b | None => r end) None l.
 
-Definition check_set (s : sdoc) (j : nat) (n : str) (idx : option Z) (v : str) (vvalid : bool)
+(** [vvalid]: the value is one deb822 can carry in the form it was given (then the value read
+    back is specified); [args_ok]: the other arguments of the call are usable as they stand.  The
+    property itself only speaks about edits that were carried out: a call may always be rejected
+    (leaving everything unchanged) unless value, key and arguments are all beyond doubt. *)
+Definition check_set (s : sdoc) (j : nat) (n : str) (idx : option Z) (v : str) (vvalid args_ok : bool)
            (cm : cmode) (ob : sobs) : option sdoc :=
   match split_para s j with
   | None => None
@@ -342,7 +352,7 @@ Definition check_set (s : sdoc) (j : nat) (n : str) (idx : option Z) (v : str) (
       let oc := occ n fs in
       let ts := resolve oc idx true in
       (* an edit that is certainly meaningful must be accepted *)
-      let must := vvalid && (negb (is_nil_l oc) || safe_name n) in
+      let must := vvalid && args_ok && (negb (is_nil_l oc) || safe_name n) in
       let ts := if must then ts else ts ++ [TReject] in
       first_some (accept_set s j n v vvalid cm ob) ts
   end.
